@@ -11,3 +11,4 @@ import DateutilVerif.Properties.C02
 #print axioms C02.parse_render_hms_letters
 #print axioms C02.convertyear_window_inv
 #print axioms C02.parse_render_numeric
+#print axioms C02.proved_templates_have_theorems
